@@ -135,6 +135,15 @@ impl<S: Read + Write> RdpClient<S> {
         }
     }
 
+    /// Verification hook: assemble a client from already connected layers
+    #[cfg(feature = "verif")]
+    pub fn verif_from_parts(mcs: mcs::Client<S>, global: global::Client) -> Self {
+        RdpClient {
+            mcs,
+            global
+        }
+    }
+
     /// Verification hook: name of the current activation state
     #[cfg(feature = "verif")]
     pub fn verif_state(&self) -> &'static str {
